@@ -222,10 +222,15 @@ Qed.
 Lemma is_num_b_number v : is_num_b v = true <-> number v.
 Proof. destruct v; cbn; split; intros; try discriminate; try contradiction; auto. Qed.
 
-Lemma neg_coerced r1 : coerced r1 -> exists v, trap (py_neg r1) = Ok v /\ arith_result v.
+Definition basic_result (v : pyval) : Prop :=      (* + - * / unary minus: never #NUM! *)
+  number v \/ v = excelutil.c_VALUE_ERROR \/ v = excelutil.c_DIV0.
+Lemma basic_arith_result v : basic_result v -> arith_result v.
+Proof. unfold basic_result, arith_result. intuition. Qed.
+
+Lemma neg_coerced r1 : coerced r1 -> exists v, trap (py_neg r1) = Ok v /\ basic_result v.
 Proof.
   destruct r1; cbn [coerced]; try contradiction; intros _; unfold py_neg, mkfloat; cbn [as_num trap];
-    eexists; (split; [reflexivity|]); unfold arith_result; cbn [number]; auto.
+    eexists; (split; [reflexivity|]); unfold basic_result; cbn [number]; auto.
 Qed.
 
 (* + - * / and unary minus never fail on modelled operands *)
@@ -233,22 +238,22 @@ Lemma arith_total l o r : scalar l -> scalar r ->
   in_error_codes l = Ok false -> in_error_codes r = Ok false ->
   arith_modelled l = true -> arith_modelled r = true ->
   o = Add \/ o = Sub \/ o = Mult \/ o = Div \/ o = USub ->
-  exists v, fixup l o r = Ok v /\ arith_result v.
+  exists v, fixup l o r = Ok v /\ basic_result v.
 Proof.
   intros Hsl Hsr Hel Her Hml Hmr Ho.
   destruct (coerce_scalar l Hsl Hml) as (l1 & Hl & Cl).
   destruct (coerce_scalar r Hsr Hmr) as (r1 & Hr & Cr).
   assert (Hao : arith_op o = true) by (destruct Ho as [->|[->|[->|[->| ->]]]]; reflexivity).
   rewrite (fixup_arith l o r l1 r1 Hel Her Hl Hr Cl Cr Hao).
-  assert (Hu : o = USub -> exists v, trap (num_apply o l1 r1) = Ok v /\ arith_result v).
+  assert (Hu : o = USub -> exists v, trap (num_apply o l1 r1) = Ok v /\ basic_result v).
   { intros ->. cbn [num_apply]. apply neg_coerced. exact Cr. }
   destruct (is_num_b l1 && is_num_b r1) eqn:Eb.
-  - assert (Hn : exists v, trap (num_apply o l1 r1) = Ok v /\ arith_result v).
+  - assert (Hn : exists v, trap (num_apply o l1 r1) = Ok v /\ basic_result v).
     { apply andb_true_iff in Eb. destruct Eb as [Nl Nr].
       apply is_num_b_number in Nl. apply is_num_b_number in Nr.
       destruct (num_apply_basic o l1 r1 Nl Nr Ho) as [(v & -> & Hv)| ->]; cbn [trap].
       - exists v. split; [reflexivity|left; exact Hv].
-      - eexists. split; [reflexivity|]. right. right. left. reflexivity. }
+      - eexists. split; [reflexivity|]. right. right. reflexivity. }
     destruct o; exact Hn.
   - destruct Ho as [->|[->|[->|[->| ->]]]];
       try (eexists; split; [reflexivity|right; left; reflexivity]).
@@ -718,7 +723,7 @@ Definition op_modelled (o : op) (v : pyval) : bool :=
 (* the kind of value each operator returns *)
 Definition result_ok (o : op) (v : pyval) : Prop :=
   if is_cmp o then exists b, v = VBool b
-  else match o with BitAnd => exists s, v = VStr s | _ => arith_result v end.
+  else match o with BitAnd => exists s, v = VStr s | _ => basic_result v end.
 
 Lemma total l o r : scalar l -> scalar r ->
   in_error_codes l = Ok false -> in_error_codes r = Ok false -> o <> Pow ->
@@ -744,8 +749,8 @@ Definition xl_value (v : pyval) : Prop :=
 Lemma result_ok_value o v : result_ok o v -> xl_value v.
 Proof.
   unfold result_ok. destruct (is_cmp o); [intros (b & ->); exact I|].
-  assert (H : arith_result v -> xl_value v).
-  { intros [H|[->|[->| ->]]]; try exact I. destruct v; cbn in *; auto. }
+  assert (H : basic_result v -> xl_value v).
+  { intros [H|[->| ->]]; try exact I. destruct v; cbn in *; auto. }
   destruct o; auto. intros (s & ->). exact I.
 Qed.
 
@@ -830,6 +835,36 @@ Proof.
     unfold fixup. rewrite Her. cbn [bind]. rewrite He. cbn [bind].
     destruct o; try discriminate Ho; cbn [is_cmp]; rewrite Hr; cbn [bind];
       rewrite (coerce_non_ascii s Hna); reflexivity.
+Qed.
+
+(* the domain of ^ in plain terms: the exponent (when a float after coercion)
+   has an integral value, or the base is negative *)
+Lemma Qred_inject z : Qred (inject_Z z) = inject_Z z.
+Proof.
+  unfold Qred, inject_Z.
+  generalize (Z.ggcd_gcd z 1) (Z.ggcd_correct_divisors z 1).
+  destruct (Z.ggcd z 1) as (g, (r1, r2)). cbn [fst snd]. intros Hg [H1 H2].
+  rewrite Z.gcd_1_r in Hg. subst g. rewrite Z.mul_1_l in H1, H2. subst r1 r2. reflexivity.
+Qed.
+Lemma den1_integral q : (Zpos (Qden (Qred q)) =? 1) = integral q.
+Proof.
+  destruct (Zpos (Qden (Qred q)) =? 1) eqn:E.
+  - symmetry. apply Z.eqb_eq in E.
+    assert (Hq : (q == inject_Z (Qnum (Qred q)))%Q).
+    { rewrite <- (Qred_correct q) at 1. destruct (Qred q) as [n d]. cbn [Qnum Qden] in *.
+      injection E as ->. reflexivity. }
+    apply (integral_inject q _ Hq).
+  - symmetry. destruct (integral q) eqn:Ei; [|reflexivity].
+    unfold integral in Ei. apply q_eqb_eq in Ei.
+    rewrite <- (Qred_complete _ _ Ei), Qred_inject in E. discriminate E.
+Qed.
+Lemma pow_domain l1 q : number l1 -> pow_modelled l1 (VFloat q) = integral q || q_ltb (qv l1) 0.
+Proof.
+  intros Hn. unfold pow_modelled. rewrite den1_integral.
+  assert (Hb : is_num_b l1 = true) by (apply is_num_b_number; exact Hn). rewrite Hb. cbn [negb orb].
+  assert (Hf : neg_frac_pow l1 (VFloat q) = q_ltb (qv l1) 0 && negb (integral q)).
+  { destruct l1; cbn [number] in Hn; try contradiction; reflexivity. }
+  rewrite Hf. destruct (integral q); destruct (q_ltb (qv l1) 0); reflexivity.
 Qed.
 
 (* ------------------------------------------------------------ examples *)
